@@ -415,7 +415,7 @@ pub fn run_c01(ctx: &Ctx) -> i32 {
       }
     };
   }
-  let max_depth = if quick { 3 } else { 8 };
+  let max_depth = if quick { 5 } else { 8 };
   let budget_s = if quick { 35.0 } else { 2400.0 };
   let cfg = cfg_for(max_depth);
   let alpha = alphabet1();
